@@ -35,7 +35,9 @@ it carries:
 * C15 at program level — `line_order_irrelevant`, `permuted_lines_same_answer`: for an aggregate statement text
   whose lowered statement is `PermSafe` on the input, every permutation of the input LINES (within and across
   files) gives the same answer; `split_input_is_merge_of_summaries`, `split_file_is_split_input`: over an input split in
-  two the program prints the table of the key-wise merged per-part summaries (`partSummaries`, `mergeSummaries`).
+  two the program prints the table of the key-wise merged per-part summaries (`partSummaries`, `mergeSummaries`) — the
+  summaries BEFORE HAVING, not the parts' printed tables (`having_parts_do_not_determine_the_whole`); the parts must be outside
+  D10's shape, which for statements with COUNT(*) every cut is (`split_input_all_cuts_of_count_star`).
 * C01 / C02 inside the program — `query_sees_extracted_rows`, `seen_row_is_specified`, `seen_json_column_is_specified`:
   the row the statement is given for a line of an input file (or of the joined file) is `Extract.extractRow` of the
   table definition the definition text lowers to, on the facts of that very line — so the theorems of `Props/C01.lean`
@@ -292,7 +294,12 @@ is then empty too —, and `SplitSafe` holds per group (the provisos of
 part has to remember — such that the program's answer over part i is the rendering, in the requested format, of the one table
 `tableOfSummaries … Sᵢ` (`tableTrace`: `Ok`, the part's lines counted, one final print call), and its answer over
 `files₁ ++ files₂` is the rendering of `tableOfSummaries … (mergeSummaries a S₁ S₂)` with all lines counted: the output over
-the whole input is determined by the per-part summaries. `StmtWF` is discharged by the lowering. -/
+the whole input is determined by the per-part summaries. `StmtWF` is discharged by the lowering.
+Read carefully: (1) merged are the parts' SUMMARIES (per group and aggregate, of the rows passing WHERE) BEFORE HAVING, transforms,
+DISTINCT, LIMIT — not what the part runs PRINT. With HAVING the printed part tables do not determine the whole:
+`having_parts_do_not_determine_the_whole` below. (2) `hb₁`, `hb₂` with the class `""` exclude every cut that leaves a group
+without a value entry (the shape of finding D10) in one of the parts — e.g. every cut of `SELECT k … GROUP BY k` — although the
+program is consistent there; for statement texts with COUNT(*) no cut is excluded: `split_input_all_cuts_of_count_star`. -/
 theorem split_input_is_merge_of_summaries (F : Facts) (defsText queryText : List Char) (fmt : Print.Format) (single : Bool)
     (files₁ files₂ : List (List Nat))
     (defs : LStmt) (tables : List Table) (a : AggStmt) (fromTable : String) (file : Option String) (p₁ p₂ : Prepared)
@@ -358,6 +365,47 @@ theorem split_input_is_merge_of_summaries (F : Facts) (defsText queryText : List
       runLowered_eq F defs _ fmt single files₂ tables (.aggregate a) fromTable none _ ht rfl hr₂, r₂]
   · rw [runText_eq_runLowered F defsText queryText fmt single (files₁ ++ files₂) defs _ hc hd hp hq,
       runLowered_eq F defs _ fmt single (files₁ ++ files₂) tables (.aggregate a) fromTable none _ ht rfl hr', r]
+
+/-- **all cut points, for statements with COUNT(*)**: `split_input_is_merge_of_summaries` without the hypothesis that the
+specification's class for the parts is empty. For a statement text whose aggregates are order-insensitive and which has COUNT(*)
+in its select list or in HAVING, the classes `c₁`, `c₂`, `cls` the specification reports are empty for EVERY input (COUNT(*)
+creates an entry in every group that has a row: `deviationClass_empty_of_countStar`), so every way of splitting the input files
+in two is covered. -/
+theorem split_input_all_cuts_of_count_star (F : Facts) (defsText queryText : List Char) (fmt : Print.Format) (single : Bool)
+    (files₁ files₂ : List (List Nat))
+    (defs : LStmt) (tables : List Table) (a : AggStmt) (fromTable : String) (file : Option String) (p₁ p₂ : Prepared)
+    (ro ro₁ ro₂ : RunOut) (cls c₁ c₂ : String)
+    (hc : classesCover F defsText = true ∧ classesCover F queryText = true)
+    (hd : parseText (lexOracles F) (regexValidFn F) defsText = .stmt defs)
+    (hp : (createPatterns defs).all (fun re => ((Utf8.decode re).bind (regexValidOf F)).isSome) = true)
+    (hq : parseText (lexOracles F) (regexValidFn F) queryText = .stmt (.aggregate a fromTable file none))
+    (ht : addTables defs = some tables)
+    (hprep₁ : prepare F tables (.aggregate a) fromTable none files₁ = some p₁)
+    (hprep₂ : prepare F tables (.aggregate a) fromTable none files₂ = some p₂)
+    (hOI : ∀ kind ∈ slotKinds a, orderInsensitive kind = true)
+    (hstar : AggKind.count none false ∈ slotKinds a)
+    (hb : Spec.Agg.batch F.eval p₁.qy a p₁.joined (p₁.files ++ p₂.files) = some (ro, cls))
+    (hb₁ : Spec.Agg.batch F.eval p₁.qy a p₁.joined p₁.files = some (ro₁, c₁))
+    (hb₂ : Spec.Agg.batch F.eval p₂.qy a p₂.joined p₂.files = some (ro₂, c₂))
+    (hsafe : ∀ k₁ k₂, keyedRows F.eval a (envsOf p₁.qy.table p₁.files.flatten) = some k₁ →
+      keyedRows F.eval a (envsOf p₂.qy.table p₂.files.flatten) = some k₂ →
+      ∀ k, SplitSafe F.eval a (rowsOfKey k k₁) (rowsOfKey k k₂)) :
+    ∃ S₁ S₂ t₁ t₂ t,
+      partSummaries F.eval a (envsOf p₁.qy.table p₁.files.flatten) = some S₁ ∧
+      partSummaries F.eval a (envsOf p₂.qy.table p₂.files.flatten) = some S₂ ∧
+      tableOfSummaries F.eval a S₁ = some t₁ ∧ tableOfSummaries F.eval a S₂ = some t₂ ∧
+      tableOfSummaries F.eval a (mergeSummaries a S₁ S₂) = some t ∧
+      runText F defsText queryText fmt single files₁ = answerOf F fmt single (tableTrace a t₁ p₁.files.flatten.length) ∧
+      runText F defsText queryText fmt single files₂ = answerOf F fmt single (tableTrace a t₂ p₂.files.flatten.length) ∧
+      runText F defsText queryText fmt single (files₁ ++ files₂) =
+        answerOf F fmt single (tableTrace a t (p₁.files.flatten.length + p₂.files.flatten.length)) := by
+  obtain ⟨_, _, _, _, _, _, hnj₁, _⟩ := prepare_files F tables (.aggregate a) fromTable none files₁ p₁ hprep₁
+  obtain ⟨_, _, _, _, _, _, hnj₂, _⟩ := prepare_files F tables (.aggregate a) fromTable none files₂ p₂ hprep₂
+  have e₁ : c₁ = "" := specBatch_class_of_countStar (hnj₁ rfl).1 hOI hstar hb₁
+  have e₂ : c₂ = "" := specBatch_class_of_countStar (hnj₂ rfl).1 hOI hstar hb₂
+  subst e₁; subst e₂
+  exact split_input_is_merge_of_summaries F defsText queryText fmt single files₁ files₂ defs tables a fromTable file p₁ p₂
+    ro ro₁ ro₂ cls hc hd hp hq ht hprep₁ hprep₂ hOI hb hb₁ hb₂ hsafe
 
 /-- … and for ONE file cut in two at a line boundary: the program over the file `pre ++ post` (`pre` ends with a newline, or
 is empty) answers as over the two files `[pre, post]` (`multi_file_eq_concat_program`, C12), i.e. with the table of the merged
@@ -693,6 +741,27 @@ example :
       .text false ([strBytes "a;1\nb;2\nzzz\n"] ++ [strBytes "b;2\nb;2\na;1"]) := by
   refine ⟨by decide +kernel, by decide +kernel, by decide +kernel, ?_⟩
   exact split_file_is_split_input _ _ _ _ _ _ _ (by decide +kernel)
+
+/-- **With HAVING the parts' PRINTED tables do not determine the whole** (why the split theorems speak of summaries).
+Statement `select k, count(*), sum(v) from t where v > 0 group by k having count(*) > 1`. Part 1 = lines (a,1), (b,2), (b,2):
+group a has ONE row and fails HAVING, the part prints `[b, 2, 4]`. Part 2 = line (a,1): prints nothing. The whole prints
+`[a, 2, 2], [b, 2, 4]`: group a, printed by NEITHER part, is in the result. With part 2' = a line that is no row the parts print
+exactly the same two tables (`[b, 2, 4]` and nothing) and the whole prints `[b, 2, 4]` only. All hypotheses of
+`split_input_is_merge_of_summaries` hold on both invocations (`exSplitHyps`; the statement has COUNT(*), so
+`split_input_all_cuts_of_count_star` applies as well): what is merged are the per-group summaries before HAVING — part 1
+remembers (a: count 1, sum 1) although it does not print it. (The real program prints the same records: third review, M9.) -/
+theorem having_parts_do_not_determine_the_whole :
+    let q := "select k, count(*), sum(v) from t where v > 0 group by k having count(*) > 1".toList
+    recordsOf (runText exFacts exDefs q .text false [strBytes "a;1\nb;2\nb;2\n"]) = some (none, 3, [strBytes "k: 'b', count1: 2, sum2: 4"]) ∧
+    recordsOf (runText exFacts exDefs q .text false [strBytes "a;1\n"]) = some (none, 1, []) ∧
+    recordsOf (runText exFacts exDefs q .text false [strBytes "zzz\n"]) = some (none, 1, []) ∧
+    recordsOf (runText exFacts exDefs q .text false ([strBytes "a;1\nb;2\nb;2\n"] ++ [strBytes "a;1\n"])) =
+      some (none, 4, [strBytes "k: 'a', count1: 2, sum2: 2", strBytes "k: 'b', count1: 2, sum2: 4"]) ∧
+    recordsOf (runText exFacts exDefs q .text false ([strBytes "a;1\nb;2\nb;2\n"] ++ [strBytes "zzz\n"])) =
+      some (none, 4, [strBytes "k: 'b', count1: 2, sum2: 4"]) ∧
+    exSplitHyps exFacts exDefs q [strBytes "a;1\nb;2\nb;2\n"] [strBytes "a;1\n"] = true ∧
+    exSplitHyps exFacts exDefs q [strBytes "a;1\nb;2\nb;2\n"] [strBytes "zzz\n"] = true := by
+  refine ⟨by decide +kernel, by decide +kernel, by decide +kernel, by decide +kernel, by decide +kernel, by decide +kernel, by decide +kernel⟩
 
 /-- the hypothesis of `query_sees_extracted_rows` (a prepared run) holds on the invocations of `Props/Pipeline.lean`
 (`exSelectHyps`, `exAggHyps` evaluate `prepare … = some p`); the row seen for `a;1` is the extracted one -/
